@@ -93,7 +93,7 @@ theorem model_cap_witness : modelFind [97, 42] (List.replicate 1000000 97) 1 = n
 
 /-- the reference raises no error on a pattern of the fragment, whatever the subject (the simulation, instantiated
     with a cap large enough for the subject at hand, excludes it) -/
-theorem specFind_total (pat subj : List Nat) (init : Int) (hfrag : inFragmentC pat = true) :
+theorem specFind_total (pat subj : List Nat) (init : Int) (hfrag : inFragmentC0 pat = true) :
     specFind pat subj init ≠ none := by
   unfold specFind LuaPattern.strFind firstMatch
   generalize hsrc : subj.toArray = src
